@@ -350,11 +350,14 @@ ElemAttribute::startElement(StylesheetExecutionContext& executionContext) const
                     }
                     else
                     {
-                        // Check to see if there's already a namespace declaration in scope...
-                        const XalanDOMString* const     prefix =
-                            executionContext.getResultPrefixForNamespace(attrNameSpace);
+                        // Check to see if the attribute's own prefix is already bound to the
+                        // attribute's namespace in the result.  It is not enough that some other
+                        // prefix is bound to that namespace: the attribute is written with this
+                        // prefix (which may just have been generated), so this prefix must be declared.
+                        const XalanDOMString* const     theBoundNamespace =
+                            executionContext.getResultNamespaceForPrefix(nsprefix);
 
-                        if (prefix == 0)
+                        if (theBoundNamespace == 0 || *theBoundNamespace != attrNameSpace)
                         {
                             // We need to generate a namespace declaration...
                             const GetCachedString   nsDeclGuard(executionContext);
@@ -655,11 +658,14 @@ ElemAttribute::execute(StylesheetExecutionContext&  executionContext) const
                     }
                     else
                     {
-                        // Check to see if there's already a namespace declaration in scope...
-                        const XalanDOMString* const     prefix =
-                            executionContext.getResultPrefixForNamespace(attrNameSpace);
+                        // Check to see if the attribute's own prefix is already bound to the
+                        // attribute's namespace in the result.  It is not enough that some other
+                        // prefix is bound to that namespace: the attribute is written with this
+                        // prefix (which may just have been generated), so this prefix must be declared.
+                        const XalanDOMString* const     theBoundNamespace =
+                            executionContext.getResultNamespaceForPrefix(nsprefix);
 
-                        if (prefix == 0)
+                        if (theBoundNamespace == 0 || *theBoundNamespace != attrNameSpace)
                         {
                             // We need to generate a namespace declaration...
                             const GetCachedString   nsDeclGuard(executionContext);
